@@ -219,4 +219,107 @@ def message (p : Proto) (mtype : Nat) (name : Bytes) (seq : Int) : Bytes :=
   | .binary false => be name.length 4 ++ name ++ [UInt8.ofNat mtype] ++ be (twos seq 32) 4
   | .compact => [0x82, UInt8.ofNat (mtype * 32 + 1)] ++ leb128 (twos seq 32) ++ leb128 name.length ++ name
 
+/-! ## unions
+
+Thrift IDL `union` (thrift-idl: "unions are similar to structs, except that they provide a means to transport exactly one
+field of a possible set of fields"): on the wire a union is an ORDINARY STRUCT that carries EXACTLY ONE field — the member that
+is set, whatever its value (a member set to 0, "" or false is still a set member and is transmitted). A value with no member
+or with several members set is not a union value: the reference has no encoding for it (`none`).
+
+Go shape (see Model/ThriftUnion.lean): the members are ordinary fields with ids; the field tagged with the option `union`
+(interface typed, empty id) designates the set member: `.ptr (.int k)` = the member at declaration position `k`. A member
+holding a non-default value counts as set, too (the Go API lets the designator be nil); a nil pointer member is never set. -/
+def isUnionTag (tag : String) : Bool :=
+  match tag.splitOn "thrift:\"" with
+  | _ :: after :: _ => (((after.splitOn "\"").headD "").splitOn ",").drop 1 |>.contains "union"
+  | _ => false
+
+/-- position of the designator field -/
+def designator : Fields → Nat → Option Nat
+  | .nil, _ => none
+  | .cons _ tag _ _ rest, pos =>
+    match designator rest (pos + 1) with
+    | some q => some q
+    | none => if isUnionTag tag then some pos else none
+
+def valAt : Vals → Nat → Val
+  | .nil, _ => .nil
+  | .cons v _, 0 => v
+  | .cons _ r, n + 1 => valAt r n
+
+/-- positions of the members that are set; `des` = the designated position -/
+def setMembers (des : Option Nat) : Fields → Vals → Nat → List Nat
+  | .cons _ tag _ t rest, .cons x vs, pos =>
+    let tl := setMembers des rest vs (pos + 1)
+    match tagOf tag with
+    | none => tl
+    | some _ =>
+      let isNilPtr := match t, x with | .ptr _, .nil => true | _, _ => false
+      if !isNilPtr && (des == some pos || !isDefaultAt t x) then pos :: tl else tl
+  | _, _, _ => []
+
+def catOpt : List (Option Bytes) → Option Bytes
+  | [] => some []
+  | a :: rest => match a, catOpt rest with
+    | some x, some y => some (x ++ y)
+    | _, _ => none
+
+mutual
+/-- reference encoding with unions; `none` = some union value inside has not exactly one member set -/
+def encodeU (p : Proto) : Ty → Val → Option Bytes
+  | .slice (.int .u8), v => some (encode p (.slice (.int .u8)) v)
+  | .slice t, v =>
+    (match v with
+     | .list vs => (catOpt (vs.toList.map (encodeU p t))).map fun body => listHdr p (ttOf t) vs.length ++ body
+     | _ => some (listHdr p (ttOf t) 0))
+  | .map k v, x =>
+    let ps := match x with | .map kvs => pairsOf kvs.toList | _ => []
+    if isUnit v then (catOpt (ps.map fun kv => encodeU p k kv.1)).map fun body => listHdr p (ttOf k) ps.length ++ body
+    else (catOpt (ps.map fun kv => catOpt [encodeU p k kv.1, encodeU p v kv.2])).map fun body =>
+      mapHdr p (ttOf k) (ttOf v) ps.length ++ body
+  | .struct fs, v =>
+    (match v with
+     | .struct vs =>
+       (match designator fs 0 with
+        | none => (recsU p none fs vs 0).map fun rs => emit p (rs.foldr insRec []) 0
+        | some u =>
+          let des := match valAt vs u with | .ptr (.int k) => (if k < 0 then none else some k.toNat) | _ => none
+          match setMembers des fs vs 0 with
+          | [k] => (recsU p (some k) fs vs 0).map fun rs => emit p (rs.foldr insRec []) 0      -- exactly that field
+          | _ => none)
+     | _ => some [0])
+  | .ptr t, v => (match v with | .ptr x => encodeU p t x | _ => encodeU p t (zeroOf t))
+  | .named _ t, v => encodeU p t v
+  | .bool, v => some (encode p .bool v)
+  | .int k, v => some (encode p (.int k) v)
+  | .f32, v => some (encode p .f32 v)
+  | .f64, v => some (encode p .f64 v)
+  | .str, v => some (encode p .str v)
+  | .bytes, v => some (encode p .bytes v)
+  | .arr _ _, _ | .any, _ => some []
+/-- `only = some k`: a union — the field at position `k` and nothing else; `none`: the struct rule of `recs` -/
+def recsU (p : Proto) (only : Option Nat) : Fields → Vals → Nat → Option (List FRec)
+  | .cons _ tag _ t rest, .cons x vs, pos =>
+    match recsU p only rest vs (pos + 1) with
+    | none => none
+    | some tl =>
+      match tagOf tag with
+      | none => some tl
+      | some (id, required, enum) =>
+        let isNilPtr := match t, x with | .ptr _, .nil => true | _, _ => false
+        let transmit := match only with
+          | some k => k == pos
+          | none => !isNilPtr && (required || !isDefaultAt t x)
+        if !transmit then some tl
+        else
+          let body : Option Bytes :=
+            if enum then (match derefV x with
+                          | .int i => some (match p with | .compact => zz i | _ => be (twos i 32) 4)
+                          | _ => encodeU p t x)
+            else encodeU p t x
+          body.map fun body =>
+            { id := id, t := if enum then .i32 else ttOf t, isTrue := (match derefV x with | .bool true => true | _ => false), body := body } :: tl
+  | _, _, _ => some []
+end
+
 end Enc.Spec.Thrift
